@@ -873,7 +873,9 @@ func (p *prog) opMultipart(big bool) {
 		if copyRange != "" {
 			o.enc += "-range"
 		}
-	} else if r.Intn(4) == 0 {
+	}
+	if (copySrc == "" && r.Intn(4) == 0) || (copySrc != "" && r.Intn(2) == 0) {
+		// (with a copied part: the upload's algorithm is as a rule not the one the source was stored with)
 		algo = []string{"crc32", "crc32c", "crc64nvme"}[r.Intn(3)]
 		o.enc += "+full-" + algo
 	}
@@ -1018,6 +1020,10 @@ func (p *prog) opMultipart(big bool) {
 		c.Violation(p.sig("ack", "etag", o), p.id, p.detail(k.key, o, map[string]any{"expected": o.etag, "got": res.ETag}))
 	}
 	p.install(k, o, g)
+	if copySrc != "" && copySrc != k.key && p.model[copySrc] != nil {
+		// the object a part was copied from is what it was, checksums included
+		p.verify(copySrc)
+	}
 }
 
 // dropCE: the gateway refuses most body-less requests that carry a Content-Encoding (observed:
